@@ -4,9 +4,12 @@ P="$1"; shift
 cd /repo || exit 2
 git -C /repo diff --quiet || { echo "/repo is dirty"; exit 2; }
 git -C /repo apply "$P" || { echo "patch does not apply"; exit 2; }
+# the evidence files of runs against a patched tree must never be committed: keep the ones of the unchanged tree aside
+rm -rf /tmp/evidence.keep; mkdir -p /tmp/evidence.keep; cp /verif/evidence/*.json /tmp/evidence.keep/ 2>/dev/null
 for id in "$@"; do
   echo "=== $id with $(basename $(dirname $P))"
   (cd /verif && timeout 3000 ./check "$id" --tier quick 2>&1 | tail -25; echo "exit=$?")
 done
 git -C /repo checkout -- .
+cp /tmp/evidence.keep/*.json /verif/evidence/ 2>/dev/null
 git -C /repo status --short | head -5
